@@ -15,7 +15,7 @@ Definition cat_U (text : bytes -> bytes) (ok : bytes -> Prop) (x : ritem) : Prop
   ok (r_id x) /\ r_attr x = text (r_id x).
 Definition cat_raw (raw : bytes -> bytes) (x : ritem) : bytes := raw (r_id x).
 
-Lemma cat_id_inj text ok a b : cat_U text ok a -> cat_U text ok b -> r_id a = r_id b -> a = b.
+Lemma cat_id_inj text (ok : bytes -> Prop) a b : cat_U text ok a -> cat_U text ok b -> r_id a = r_id b -> a = b.
 Proof.
   destruct a as [ia aa], b as [ib ab]. unfold cat_U. cbn [r_id r_attr]. intros [_ ->] [_ ->] ->. reflexivity.
 Qed.
@@ -27,7 +27,7 @@ Variable dec_oid dec_usr : bytes -> option bytes.
 
 (* ID-ordered results (no attribute requested, or the merge is told firstAttr = ""):
    the index is the ID index, there is no value part *)
-Lemma agree_id cmp_int text ok a b : cat_U text ok a -> cat_U text ok b -> r_id a <> r_id b ->
+Lemma agree_id cmp_int text (ok : bytes -> Prop) a b : cat_U text ok a -> cat_U text ok b -> r_id a <> r_id b ->
   attr_cmp dec_oid dec_usr [] cmp_int (r_attr a) (r_attr b)
   = Some (lex_compare (cat_raw (fun _ => []) a) (cat_raw (fun _ => []) b)).
 Proof. reflexivity. Qed.
@@ -64,7 +64,7 @@ Qed.
    creation epoch / payload length with string matchers (text = stored value),
    and payload checksum / homomorphic hash / split ID, whose texts (hex, UUID)
    are compared as strings: agreement needs the encoder to be order preserving *)
-Lemma agree_text first_attr (text raw : bytes -> bytes) ok a b : first_attr <> [] ->
+Lemma agree_text first_attr (text raw : bytes -> bytes) (ok : bytes -> Prop) a b : first_attr <> [] ->
   is_oid_key first_attr = false -> bytes_eqb first_attr key_owner = false ->
   (forall i j, ok i -> ok j -> lex_compare (text i) (text j) = lex_compare (raw i) (raw j)) ->
   cat_U text ok a -> cat_U text ok b -> r_id a <> r_id b ->
